@@ -161,13 +161,19 @@ def tlc_cases(r):
         inner = line[line.index(', "') + 2:line.rindex('>>')]
         if inner not in seen:
             seen.add(inner)
-            out.append(json.loads(json.loads(inner))["prog"])
+            c = json.loads(json.loads(inner))
+            out.append((c["prog"], c["inc"]) if "inc" in c else c["prog"])
     return out
 
 
 def project_from_ast(main, mos, d, pid):
     occ = {}
+    inc = []
+    if isinstance(main, tuple):
+        main, inc = main
     texts = {"main.asm": "\n".join(G.render(main, "main.asm", occ)) + "\n"}
+    if inc:
+        texts["inc.asm"] = "\n".join(G.render(inc, "inc.asm", occ)) + "\n"
     write_project(d, texts)
     ok, digest, msg = build(mos, d)
-    return {"id": pid, "dir": d, "main": main, "inc": [], "two": False, "texts": texts, "occ": occ, "digest": digest, "ok": ok}
+    return {"id": pid, "dir": d, "main": main, "inc": inc, "two": bool(inc), "texts": texts, "occ": occ, "digest": digest, "ok": ok}
